@@ -84,6 +84,10 @@ structure Consts where
   coderBcj : List Nat
   /-- the class `_apply_decoder` raises for an AES coder is translated to the encrypted error by `_extract_from_7z_optimized` -/
   szHeaderEncDetected : Bool
+  /-- `needs_password` (reader and its `SevenZipFile` wrapper) writes no state and reads nothing but `self._folders` -/
+  szAskPure : Bool
+  /-- every store to `self._folders` is an unconditional plain assignment (no first-one-wins guard, no in-place mutation) -/
+  szFoldersLastWriteWins : Bool
   odfManifest : Str
   /-- `some tag`: the manifest is parsed and elements are compared with `tag`; `none`: text test only -/
   odfEncTag : Option Str
@@ -293,6 +297,44 @@ def szOpen (C : Consts) (lzmaOk : Bool) (a : SzArchive) : ArcEnd :=
   | .encrypted => if C.szHeaderEncDetected then .encrypted else .failed
   | .bad => .failed
   | .ok => if needsPassword C a.folders then .encrypted else .done
+
+/-! ## 7z reader as a state machine
+
+`SevenZipReader` keeps ONE attribute `_folders`; every streams info that is parsed assigns it (the folder of an
+EncodedHeader first — `7z a -p` writes a compressed, not encrypted header —, additional / main streams info after the
+header was decoded), and `needs_password()` can be asked at any moment (by the parser itself, by the wrapper, by the
+extractor).  The two `Consts` facts say what the CURRENT source does; the alternatives are what a memoising
+`needs_password` / a guarded store would do. -/
+
+structure SzReader where
+  folders : List (List Coder) := []
+  memo : Option Bool := none
+  deriving Repr
+
+inductive SzEv
+  /-- a streams info was parsed completely (`_parse_unpack_info` stored its folders) -/
+  | parsed (fs : List (List Coder))
+  /-- somebody calls `needs_password()` and uses / drops the answer -/
+  | ask
+  deriving Repr
+
+def SzReader.parsed (C : Consts) (r : SzReader) (fs : List (List Coder)) : SzReader :=
+  if C.szFoldersLastWriteWins then { r with folders := fs }
+  else if r.folders.isEmpty then { r with folders := fs } else r
+
+def SzReader.ask (C : Consts) (r : SzReader) : Bool × SzReader :=
+  if C.szAskPure then (needsPassword C r.folders, r)
+  else match r.memo with
+    | some b => (b, r)
+    | none => (needsPassword C r.folders, { r with memo := some (needsPassword C r.folders) })
+
+def SzReader.run (C : Consts) (r : SzReader) : List SzEv → SzReader
+  | [] => r
+  | .parsed fs :: es => (r.parsed C fs).run C es
+  | .ask :: es => (r.ask C).2.run C es
+
+/-- what the extractor is told when it asks the finished reader -/
+def szVerdict (C : Consts) (evs : List SzEv) : Bool := ((SzReader.run C {} evs).ask C).1
 
 /-! ## XML trees (ElementTree as a parameter) -/
 
